@@ -84,10 +84,12 @@ Verdict(v, o) ==
 (* the class of input asked for; whether the materialised input really has  *)
 (* it is decided again when the run is judged.                              *)
 GenVectors ==
-  { v \in [cmd : Commands, g : GStates, gvia : {"na", "opt", "file"}, c : CStates,
+  { v \in [cmd : Commands, g : GStates, gvia : {"na", "opt", "file", "py", "split"}, c : CStates,
            cvia : {"na", "opt", "file", "mixed"}, ik : IKinds,
            ic : {"na", "empty", "sat", "unsat", "nonmember"}] :
       /\ (v.g = "none") <=> (v.gvia = "na")
+      /\ v.gvia = "py" => v.g \in {"ok", "bad"}          \* a Python extension file defining (or failing to define) `grammar`
+      /\ v.gvia = "split" => v.g = "ok"                   \* the rules spread over a .bnf file and a Python file
       /\ (v.c = "none") <=> (v.cvia = "na")
       /\ v.cvia = "mixed" => v.c \in {"two", "two_onebad"}
       /\ v.cmd = "solve" => v.ik = "none"
